@@ -29,7 +29,7 @@ CLAIM = dict(
          "hand-written from visitor.rs / lib.rs / resolution.rs and validated by correspondence; the parser model is "
          "C12's; ResolveSkel.v abstracts everything but package requests into an oracle (the assumption that the "
          "resolver reads the supplied map only through resolve_package is checked by the remove-one-package probes "
-         "and, when the hook is applied, by the request log).",
+         "and by the cfg(wac_verif) request log, whose exact call sequence is compared with the model's).",
     technique="Coq proof (mutual structural induction over the AST via a flattening lemma) + extracted-model "
               "correspondence + differential resolution (all / discovered-only / all-but-one)")
 
